@@ -502,6 +502,15 @@ def arrangements(ctx):
         n = 1 if c[3] == 'single' else (3 if c[3] == 'several' else 2)
         texts = [PROGRAMS[(i + j) % len(PROGRAMS)] for j in range(n)]
         yield c + (tuple(texts),)
+    # every program once through the inline map (same stream for text and map) and once through a separate one,
+    # with the renaming printer: what reaches "names" and the base64 payload depends on the program
+    k = 0
+    for prog in PROGRAMS:
+        for mk in ('same', 'factory'):
+            for names_kind in ('absolute', 'missing'):
+                k += 1
+                if k % ctx.nshards == ctx.shard:
+                    yield ('factory', mk, names_kind, 'single', 'minify_obfuscate', 'default', True, (prog,))
 
 
 def run(ctx):
